@@ -61,6 +61,10 @@ pub enum Tamper {
     Drop { i: u8 },
     Add { key: u8 },
     Dup { i: u8 },
+    /// n extra copies of signer i (each carries the signature when i signs)
+    DupMany { i: u8, n: u8 },
+    /// an extra copy of signer i in front, declaring an inflated weight
+    DupInflated { i: u8 },
     Swap { i: u8, j: u8 },
     /// declare pool set `j`, sign with the keys of the base set
     AsOtherSet { j: u8 },
